@@ -1466,9 +1466,8 @@ def ext_post(chk, cases, impl, isteps, msteps, conc, agg):
             ml = b[2:].split("/")
             x["states"] += 2
             x["states_flat"] += fl.count("1")
-            if k == 0:
-                for d, fam in enumerate((c["fa"], c["fb"])):
-                    x["fam_flat"].setdefault(fam if not fam[:2] in ("rt", "rg") else fam[:2] + "*", set()).add(fl[d:d + 1])
+            x["states_nested"] += fl.count("n")
+
             for d in (0, 1):
                 exp = "x" if (ts[d] is None or ts[d]["weird"]) else "".join(("%d," % m) if m >= 0 else "?," for m in ts[d]["marks"])
                 x["leaf_steps"] += 1
@@ -1487,17 +1486,26 @@ def ext_post(chk, cases, impl, isteps, msteps, conc, agg):
 
 
 def run_ext(chk, agg):
-    agg["ext"] = {"diff": [], "leaf_steps": 0, "rereads": 0, "reread_errors": 0, "states": 0, "states_flat": 0, "fam_flat": {}}
+    agg["ext"] = {"diff": [], "leaf_steps": 0, "rereads": 0, "reread_errors": 0, "states": 0, "states_flat": 0, "states_nested": 0, "fam_flat": {}}
     agg["post"] = ext_post
     ok = run_batch(chk, list(ext_gen(chk)), agg)
     agg["post"] = None
     x = agg["ext"]
+    # every family as read (no call made yet): inside which theorem's hypothesis?
+    runner = os.path.join(common.EXTRACT, "model_runner")
+    fams = sorted(FAMILIES)
+    hdr = ["pgdoc %s.10 %s %s" % (f, get_doc(f, 10)[0], get_doc(f, 10)[1]) for f in fams]
+    for f, o in zip(fams, run_capped(runner, hdr, ["pgxflat %s.10" % f for f in fams])):
+        x["fam_flat"].setdefault(f if f[:2] not in ("rt", "rg") else f[:2] + "*", set()).add(o)
     chk.cov["parts"]["ext"] = {"leaf_observations_compared": x["leaf_steps"], "rereads_compared": x["rereads"], "rereads_that_raise": x["reread_errors"],
                                "differences": len(x["diff"]),
                                # domain of the unrestricted theorems (pgx_flat_chk, sound by flat_check_sound): measured on the explored states
                                "document_states_seen": x["states"], "document_states_inside_theorem_domain": x["states_flat"],
+                               # pgn_wf_chk (sound by nested_check_sound): well-formed nested trees as read, domain of first_flatten_nested
+                               "document_states_nested_wellformed_as_read": x["states_nested"],
                                "families_flat_as_read": sorted(f for f, v in x["fam_flat"].items() if v == {"1"}),
-                               "families_not_flat_as_read": sorted(f for f, v in x["fam_flat"].items() if v != {"1"})}
+                               "families_nested_wellformed_as_read": sorted(f for f, v in x["fam_flat"].items() if v == {"n"}),
+                               "families_mixed_or_outside": {f: sorted(v) for f, v in sorted(x["fam_flat"].items()) if v not in ({"1"}, {"n"})}}
     if x["diff"] and ok:
         chk.violation({"kind": "correspondence-broken", "correspondence": "corr:C13:pgx-leaves-reread", "first": x["diff"][0], "differing": len(x["diff"]),
                        "note": "the extracted pgx_doc_leaves / pgx_reread disagree with the raw tree walk / write + re-read of the implementation"}, no_input=True)
